@@ -1464,6 +1464,15 @@ class TLSConnection(TLSRecordLayer):
             signature_scheme = certificate_verify.signatureAlgorithm
             self.serverSigAlg = signature_scheme
 
+            if signature_scheme not in self._sigHashesToList(
+                    settings, version=(3, 4)) and \
+                    signature_scheme not in (settings.dc_sig_algs or []):
+                for result in self._sendError(
+                        AlertDescription.illegal_parameter,
+                        "Server selected signature algorithm we didn't "
+                        "advertise"):
+                    yield result
+
             signature_context = KeyExchange.calcVerifyBytes((3, 4),
                                                             srv_cert_verify_hh,
                                                             signature_scheme,
